@@ -312,6 +312,10 @@ func (e *FieldExpression) unwrapOneof(obj proto.Message) proto.Message {
 
 	oneof := descriptor.Oneofs().Get(0)
 	field := message.WhichOneof(oneof)
+	if oneof != nil && field == nil && isChoice {
+		// an allocated choice wrapper that holds no choice: the element has no value, there is nothing to yield
+		return nil
+	}
 	if oneof == nil || field == nil {
 		return obj
 	}
